@@ -365,3 +365,46 @@ package container
 //@   at return#1 assert sumRow(elems(c.compartments), soff(c.compartments) + i + 1, soff(c.compartments) + len(c.compartments)) == sumRow(row0, soff(c.compartments) + i + 1, soff(c.compartments) + len(c.compartments))
 //@   at return#1 use L-sum-front(elems(c.compartments), soff(c.compartments) + i, soff(c.compartments) + len(c.compartments))
 //@   at return#1 assert clen(c) == old(clen(c)) - old(len(slice)) && n == old(len(slice))
+
+//@ func (*Container).GetNextBlockAsContainer
+//@   requires wf(c)
+//@   assume bounded(c)
+//@   modifies c.offset, elems(c.compartments)
+//@   ensures wf(c)
+//@   ensures r1 == nil ==> r0 != nil && wf(r0)
+//@   ensures r1 != nil ==> r0 == nil
+
+//@ func (*Container).MarshalJSON
+//@   requires wf(c)
+//@   assume bounded(c)
+//@   modifies c.compartments, c.offset
+//@   ensures wf(c) && clen(c) == old(clen(c))
+
+//@ func (*Container).carbonCopy
+//@   requires wf(c)
+//@   ensures r0 != nil && fresh(r0) && r0.offset == c.offset && len(r0.compartments) == len(c.compartments)
+//@   ensures forall k int :: 0 <= k && k < len(c.compartments) ==> elems(r0.compartments)[soff(r0.compartments) + k] == elems(c.compartments)[soff(c.compartments) + k]
+
+//@ func (*Container).AppendContainer
+//@   requires wf(c) && wf(data)
+//@   assume bounded(c) && bounded(data)
+//@   modifies c.compartments, elems(c.compartments)
+//@   at return assert len(c.compartments) == old(len(c.compartments) + len(data.compartments)) && c.offset == old(c.offset)
+//@   at return assert forall k int :: soff(c.compartments) <= k && k < soff(c.compartments) + old(len(c.compartments)) ==> elems(c.compartments)[k] == old(elems(c.compartments))[k + (old(soff(c.compartments)) - soff(c.compartments))]
+//@   at return assert old(len(c.compartments) + len(data.compartments) <= cap(c.compartments)) ==> soff(c.compartments) == old(soff(c.compartments))
+//@   at return assert !old(len(c.compartments) + len(data.compartments) <= cap(c.compartments)) ==> soff(c.compartments) == 0
+//@   at return assert old(len(c.compartments) + len(data.compartments) <= cap(c.compartments)) ==> (forall k int :: soff(c.compartments) + old(len(c.compartments)) <= k && k < soff(c.compartments) + len(c.compartments) ==> elems(c.compartments)[k] == old(elems(data.compartments))[k + (old(soff(data.compartments)) - (soff(c.compartments) + old(len(c.compartments))))])
+//@   at return assert !old(len(c.compartments) + len(data.compartments) <= cap(c.compartments)) ==> (forall k int :: soff(c.compartments) + old(len(c.compartments)) <= k && k < soff(c.compartments) + len(c.compartments) ==> elems(c.compartments)[k] == old(elems(data.compartments))[k + (old(soff(data.compartments)) - (soff(c.compartments) + old(len(c.compartments))))])
+//@   at return assert forall k int :: soff(c.compartments) + old(len(c.compartments)) <= k && k < soff(c.compartments) + len(c.compartments) ==> elems(c.compartments)[k] == old(elems(data.compartments))[k + (old(soff(data.compartments)) - (soff(c.compartments) + old(len(c.compartments))))]
+//@   at return assert forall k int :: soff(c.compartments) <= k && k < soff(c.compartments) + c.offset ==> len(elems(c.compartments)[k]) == 0
+//@   at return assert forall k int :: soff(c.compartments) + c.offset <= k && k < soff(c.compartments) + old(len(c.compartments)) ==> len(elems(c.compartments)[k]) == len(old(elems(c.compartments))[k + (old(soff(c.compartments) + c.offset) - (soff(c.compartments) + c.offset))])
+//@   at return use L-sum-shift(elems(c.compartments), old(elems(c.compartments)), soff(c.compartments) + c.offset, old(soff(c.compartments) + c.offset), soff(c.compartments) + old(len(c.compartments)), old(soff(c.compartments) + len(c.compartments)))
+//@   at return assert sumRow(elems(c.compartments), soff(c.compartments) + c.offset, soff(c.compartments) + old(len(c.compartments))) == old(clen(c))
+//@   at return assert forall k int :: soff(c.compartments) + old(len(c.compartments)) <= k && k < soff(c.compartments) + len(c.compartments) ==> len(elems(c.compartments)[k]) == len(old(elems(data.compartments))[k + (old(soff(data.compartments)) - (soff(c.compartments) + old(len(c.compartments))))])
+//@   at return use L-sum-shift(elems(c.compartments), old(elems(data.compartments)), soff(c.compartments) + old(len(c.compartments)), old(soff(data.compartments)), soff(c.compartments) + len(c.compartments), old(soff(data.compartments) + len(data.compartments)))
+//@   at return use L-sum-split(old(elems(data.compartments)), old(soff(data.compartments)), old(soff(data.compartments) + data.offset), old(soff(data.compartments) + len(data.compartments)))
+//@   at return use L-sum-zero(old(elems(data.compartments)), old(soff(data.compartments)), old(soff(data.compartments) + data.offset))
+//@   at return assert sumRow(elems(c.compartments), soff(c.compartments) + old(len(c.compartments)), soff(c.compartments) + len(c.compartments)) == old(clen(data))
+//@   at return use L-sum-split(elems(c.compartments), soff(c.compartments) + c.offset, soff(c.compartments) + old(len(c.compartments)), soff(c.compartments) + len(c.compartments))
+//@   ensures wf(c)
+//@   ensures clen(c) == old(clen(c)) + old(clen(data))
